@@ -567,18 +567,21 @@ func runChunk(f *Family, cmd command) *reply {
 	var cpuUs int64
 	rep.Next = cmd.Hi
 	stopped := false
-	f.Gen(E.w, core.Thorough(), func(c Case) {
+	f.Gen(E.w, core.Thorough(), func(mk func() Case) {
 		i := idx
 		idx++
 		if stopped {
 			return
 		}
+		var c Case
 		if cmd.Only != "" {
-			if c.Name != cmd.Only {
+			if c = mk(); c.Name != cmd.Only {
 				return
 			}
 		} else if i < cmd.Lo || i >= cmd.Hi || skip[i] {
 			return
+		} else {
+			c = mk()
 		}
 		vclock.SetUnix(E.w.now)
 		r := runCase(c, lim)
